@@ -56,7 +56,7 @@ func nearCases(r *vkit.Report) {
 		delta := []time.Duration{300 * us, 600 * us, -300 * us, -600 * us}[c.Index%4]
 		nearCase(c, 1500*us, delta, c.Index/4)
 	})
-	r.Cases("near", r.Scale(3300, 12000), 1, func(c *vkit.Case) {
+	r.Cases("near", r.Scale(3300, 10000), 1, func(c *vkit.Case) {
 		rnd := c.Rand
 		nearCase(c, vkit.Pick(rnd, nearDs), vkit.Pick(rnd, nearDeltas), rnd.Intn(len(nearShapes)))
 	})
